@@ -46,6 +46,8 @@ def apply(name: str, par: Dict[str, Any], ops: List[Any], model: bool):
     lib = numpy if model else numpoly
     a = ops[0]
     if name == "reshape":
+        if par.get("order"):
+            return lib.reshape(a, tuple(par["shape"]) if isinstance(par["shape"], list) else par["shape"], order=par["order"])
         return lib.reshape(a, tuple(par["shape"]) if isinstance(par["shape"], list) else par["shape"])
     if name == "reshape_method":
         return a.reshape(*par["shape"])
@@ -60,6 +62,8 @@ def apply(name: str, par: Dict[str, Any], ops: List[Any], model: bool):
     if name in ("atleast_1d", "atleast_2d", "atleast_3d"):
         return getattr(lib, name)(a)
     if name == "repeat":
+        if par.get("axis") == "omitted":
+            return lib.repeat(a, par["repeats"])
         return lib.repeat(a, par["repeats"], axis=par["axis"])
     if name == "tile":
         return lib.tile(a, par["reps"])
@@ -215,6 +219,10 @@ def gen_cases(tier: str, seed: int) -> List[Dict]:
         for t in sorted(targets)[: (3 if quick else 10)]:
             add("reshape", [P(shape)], {"shape": list(t)})
         add("reshape_method", [P(shape)], {"shape": [size]})
+        if len(shape) >= 2 and size > 1:
+            for order in ("C", "F", "A"):
+                add("reshape", [P(shape)], {"shape": [size], "order": order}, tag="-idx-order%s" % order)
+                add("reshape", [P(shape)], {"shape": list(reversed(shape)), "order": order}, tag="-idx-order%s" % order)
         add("reshape", [P(shape)], {"shape": size}, tag="-int")
         for f in ("ravel", "flatten", "T", "flat"):
             add(f, [P(shape)])
@@ -246,6 +254,7 @@ def gen_cases(tier: str, seed: int) -> List[Dict]:
         if nd:
             ax = rng.randrange(nd)
             add("repeat", [P(shape)], {"repeats": [rng.choice([0, 1, 2]) for _ in range(shape[ax])], "axis": ax}, tag="-arr")
+        add("repeat", [P(shape)], {"repeats": 2, "axis": "omitted"}, tag="-idx-default")
         for reps in (2, [2], [1, 2], [2, 1, 2]):
             add("tile", [P(shape)], {"reps": reps})
     # joins with operands of differing name / term sets
